@@ -418,4 +418,13 @@ theorem searchInt_sound (a : List Int) (t : Int) :
   · exact Or.inl ⟨a.length - 1, rfl, by omega, h4.symm⟩
   · exact searchLoop_sound a t _ _ _ _ (by omega)
 
+/-- `ref_sort_rand_in_range(min, max)` lies in `[min, max]` for every `rand()` value -/
+theorem randInRange_bounds (min max : Int) (r : Nat) (h : min ≤ max) :
+    min ≤ randInRange min max r ∧ randInRange min max r ≤ max := by
+  unfold randInRange
+  have hpos : (0 : Int) < max - min + 1 := by omega
+  have h1 : 0 ≤ Int.tmod (r : Int) (max - min + 1) := Int.tmod_nonneg _ (Int.natCast_nonneg r)
+  have h2 : Int.tmod (r : Int) (max - min + 1) < max - min + 1 := Int.tmod_lt_of_pos _ hpos
+  omega
+
 end Refine.Model.Sort
